@@ -346,6 +346,26 @@ def _shift_of(rv):
     return None
 
 
+fn_prog = None
+
+
+def _ascii_char_predicate(g):
+    """closure body: no calls, every comparison is `c == '<ascii>'` (or `!=`), nothing else decides the result"""
+    if g is None or g.kind != "Closure" or list(g.calls()):
+        return False
+    cmps = 0
+    for bb, i, st in g.stmts():
+        if st[0] == "=" and st[2][0] == "bin":
+            if st[2][1] not in ("Eq", "Ne", "BitOr", "BitAnd"):
+                return False
+            if st[2][1] in ("Eq", "Ne"):
+                ks = [x for x in (st[2][2], st[2][3]) if x[0] == "k"]
+                if len(ks) != 1 or not isinstance(ks[0][2], dict) or "char" not in ks[0][2] or not str(ks[0][2]["char"]).isascii():
+                    return False
+                cmps += 1
+    return cmps >= 1
+
+
 def _shifted_find(fn, op, k, local):
     """R16-g: is `local ± k` a byte index that may fall inside a character?  local derives from str::find / rfind.
     `+k` is exact only after a literal ASCII pattern of k bytes; `-k` presumes the preceding character is k bytes wide."""
@@ -359,6 +379,9 @@ def _shifted_find(fn, op, k, local):
         if o[0] == "const" and isinstance(o[1], dict):
             lit = o[1].get("char") if "char" in o[1] else o[1].get("str")
         literal_ok = isinstance(lit, str) and lit.isascii() and len(lit) == k
+        if not literal_ok and k == 1 and fc.refs:
+            # a predicate closure that only compares its character with ASCII constants matches a 1-byte character
+            literal_ok = all(_ascii_char_predicate(fn_prog.fns.get(x)) for x in fc.refs) if fn_prog is not None else False
         if op == "Sub":
             out.append("byte index of a found character − %d (the preceding character may be wider than %d byte)" % (k, k))
         elif not literal_ok:
@@ -431,7 +454,9 @@ def _taint_sources(p, fn, local, depth=0):
 
 
 def char_byte_units(ctx, rid):
+    global fn_prog
     p, r = ctx.p, ctx.r
+    fn_prog = p
     _RET_TAINT.clear()
     r.rule(rid, "unit discipline at panicking sinks: the range / offset operand of a `str` slice (Index/get/split_at) or of an "
                 "annotate-snippets span does not derive from a character or column count (chars().count(), width functions, "
